@@ -134,3 +134,35 @@ func (c *Case) DecodeTop(b []byte, validate bool) (out Outcome) {
 
 	return out
 }
+
+// JSONEncodeTop hands the top-level value itself to API.JSONEncode (with the call-level settings).
+func (c *Case) JSONEncodeTop(v reflect.Value, validate bool) (out Outcome) {
+	defer func() {
+		if r := recover(); r != nil {
+			out.Panic = r
+		}
+	}()
+	out.Bytes, out.Err = c.API.JSONEncode(context.Background(), v.Interface(), c.topOpts(validate)...)
+
+	return out
+}
+
+// JSONDecodeTop decodes a document into a fresh top-level value (destination as in DecodeTop).
+func (c *Case) JSONDecodeTop(doc []byte, validate bool) (out Outcome) {
+	var p reflect.Value
+	if c.Top.Kind == KPtr {
+		p = reflect.New(c.Top.Elem.T)
+		out.Value = p
+	} else {
+		p = reflect.New(c.Top.T)
+		out.Value = p.Elem()
+	}
+	defer func() {
+		if r := recover(); r != nil {
+			out.Panic = r
+		}
+	}()
+	out.Err = c.API.JSONDecode(context.Background(), doc, p.Interface(), c.topOpts(validate)...)
+
+	return out
+}
